@@ -2082,6 +2082,10 @@ class _Ops:
         self.c["checks"]["cast_keeps_state"] += 1
         if self._holds(x.obj) != before:
             return StepResult("ok", "cast-changed", [self.viol("C09", "cast-changed-state", x, "double-float", {})])
+        # Module._apply puts *new* tensors into the buffer dict (and new storage under each Parameter): objects that
+        # shared a plain tensor with x no longer do, so for unlinked inverse pairs this is a replacement
+        self.mark_pairs(x, True, "data_")
+        self.related_unknown(x)
         self.note_change(x, "cast")
         return StepResult("ok", "cast")
 
